@@ -344,14 +344,11 @@ Print Assumptions C20_json_alias_refuted.
                              or ending in U+1D1C0 (document-level guard [keys_path_okb];
                              witnesses below = findings C20-K5-QUOTES / C20-K6-ESC)
       [wfp (pv_of_delta d)]  the payload is a well-formed dict (distinct paths per category).
-    That [keys_path_okb a && keys_path_okb b] implies both for the delta of (a, b) is
-    OBSERVED on every generated pair by the correspondence check (evaluated in Coq with the
-    recorded oracles), not proved: it needs two facts about the diff model that the C01/C04
-    blocks do not provide (the paths of dictionary_item_added entries and of the opcode list
-    consist of document keys; entry paths are distinct per category). *)
+    C20_patch_reproduces_json_docs_pickled (below) replaces both by the document-level guard
+    [keys_path_okb a], [keys_path_okb b], using Diff/DiffPaths.v. *)
 From DD Require Import Cli.JsonPickle.
 
-Theorem C20_patch_reproduces_json_docs_pickled :
+Theorem C20_patch_reproduces_json_docs_payload_conditions :
   forall (parse : list Vm.op -> option Value.value)
          (dump : Value.value -> option (list Vm.op))
          (w : Vm.world) (hatom : Value.atom -> PyStr.pystr)
@@ -403,7 +400,7 @@ Theorem C20_patch_reproduces_json_docs_pickled :
               f' (FsModel.bak A) = (if keep then Some ca else None) /\
               (forall q : FsModel.path, q <> A -> q <> FsModel.bak A -> q <> P -> f' q = f q)).
 Proof. exact patch_reproduces_json_pickled. Qed.
-Print Assumptions C20_patch_reproduces_json_docs_pickled.
+Print Assumptions C20_patch_reproduces_json_docs_payload_conditions.
 
 (** the decidable payload condition implies C14's [delta_ok] *)
 Theorem C20_delta_okb_sound : forall d : DeltaModel.delta, delta_okb d = true -> DeltaCodecProofs.delta_ok d.
@@ -432,3 +429,95 @@ Print Assumptions C20_keys_quotes_refuted.
 Theorem C20_keys_escape_refuted : key_refuted k6_key.
 Proof. exact keys_escape_refuted. Qed.
 Print Assumptions C20_keys_escape_refuted.
+
+
+(** ------------------------------------------------------------------------
+    The strengthened end-to-end theorem: the two payload conditions are PROVED from the
+    document-level guard [keys_path_okb] (no object key with both quote characters, none
+    ending in U+1D1C0 - refuted otherwise, see the two witnesses above), by Cli/JsonPayload.v:
+      json_delta_ok     every path of the delta consists of document keys and indices
+                        (DiffPaths.run_diff_path_keys), hence prints and parses back;
+      json_payload_wfp  paths are distinct per category (DiffPaths.run_diff_paths_distinct /
+                        run_diff_rec_distinct), all carried values are sub-values of the
+                        well-formed documents (C04's run_diff_faithful), JSON documents
+                        produce no set entries.
+    Remaining premises: C01's oracle conditions on difflib / sorting / constructor calls
+    (injective member hash, [conv] typed and [conv_json_ok], opcodes valid and - for the
+    distinctness of paths - with sorted disjoint ranges [ops_sorted2] unless zip mode,
+    admissible visiting orders), threshold <= 1, the world conditions of the unpickler VM
+    ([calls_ok w], [types_ok w payload]) and the JSON text round trip. *)
+From DD Require Import Cli.JsonPayload.
+
+Theorem C20_patch_reproduces_json_docs_pickled :
+  forall (parse : list Vm.op -> option Value.value)
+         (dump : Value.value -> option (list Vm.op))
+         (w : Vm.world) (hatom : Value.atom -> PyStr.pystr)
+         (udiff : PyStr.pystr -> PyStr.pystr -> PyStr.pystr)
+         (ops : Value.path -> list Value.value -> list Value.value -> list Tree.opcode)
+         (c : DiffModel.cfg)
+         (conv : Value.ty -> Value.value -> option Value.value)
+         (ro : list (Value.path * Value.value) -> list (Value.path * Value.value))
+         (ao : list (Value.path * option Value.value) -> list (Value.path * option Value.value)),
+    (forall a b : Value.atom, hatom a = hatom b -> a = b) ->
+    (forall (ty0 : Value.ty) (v v' : Value.value), conv ty0 v = Some v' -> Value.type_of v' = ty0) ->
+    JsonDocs.conv_json_ok conv ->
+    (forall (p : Value.path) (xs ys : list Value.value),
+        List.forallb DiffModel.is_atom xs = true ->
+        List.forallb DiffModel.is_atom ys = true ->
+        DeltaGuard.valid_ops xs ys (ops p xs ys)) ->
+    DiffModel.zip c = true \/ DiffPaths.ops_sorted2 ops ->
+    DiffModel.thr_num c <= DiffModel.thr_den c ->
+    DeltaRun.ro_ok ro ->
+    DeltaRun.ao_ok ao ->
+    CodecProofs.calls_ok w ->
+    (forall (d : Value.value) (cc : list Vm.op), dump d = Some cc -> parse cc = Some d) ->
+    forall (pos : FsModel.dumps_pos) (keep : bool) (A B P : FsModel.path) (f : FsModel.fs Vm.op)
+           (ca : FsModel.content Vm.op) (a b : Value.value) (pd : FsModel.content Vm.op),
+      f A = Some ca ->
+      parse ca = Some a ->
+      FsModel.load parse f B = Some b ->
+      P <> A ->
+      P <> FsModel.bak A ->
+      JsonDocs.is_json a = true ->
+      JsonDocs.is_json b = true ->
+      Value.wf a = true ->
+      Value.wf b = true ->
+      DeltaGuard.alias_free (DeltaGuard.atoms_of a ++ DeltaGuard.atoms_of b) ->
+      DiffModel.ignore_private c = false \/ DeltaGuard.nopriv a = true /\ DeltaGuard.nopriv b = true ->
+      keys_path_okb a = true ->
+      keys_path_okb b = true ->
+      let d := JsonDocs.mk_delta_json hatom udiff ops c conv a b in
+      CodecProofs.types_ok w (DeltaCodec.pv_of_delta d) ->
+      FsModel.diff_cmd parse pickle_delta (JsonDocs.mk_delta_json hatom udiff ops c conv) A B f = Some pd ->
+      exists b' : Value.value,
+        DeltaModel.apply conv ro ao d a = (b', 0) /\
+        DeltaGuard.veqb b' b = true /\
+        (forall cr : list Vm.op,
+            dump b' = Some cr ->
+            exists f' : FsModel.fs Vm.op,
+              FsModel.patch_cmd parse dump (unpickle_delta w) (JsonDocs.apply_delta_json conv ro ao)
+                                pos keep A P FsModel.no_fault (FsModel.upd P (Some pd) f) = (f', FsModel.Done) /\
+              FsModel.load parse f' A = Some b' /\
+              f' A = Some cr /\
+              f' (FsModel.bak A) = (if keep then Some ca else None) /\
+              (forall q : FsModel.path, q <> A -> q <> FsModel.bak A -> q <> P -> f' q = f q)).
+Proof. exact patch_reproduces_json_keys. Qed.
+Print Assumptions C20_patch_reproduces_json_docs_pickled.
+
+(** the two reductions on their own *)
+Theorem C20_json_delta_paths_ok :
+  forall hatom udiff ops c conv (a b : Value.value),
+    keys_path_okb a = true -> keys_path_okb b = true ->
+    DeltaCodecProofs.delta_ok (JsonDocs.mk_delta_json hatom udiff ops c conv a b).
+Proof. exact json_delta_ok. Qed.
+Print Assumptions C20_json_delta_paths_ok.
+
+Theorem C20_json_payload_well_formed :
+  forall hatom udiff ops c conv (a b : Value.value),
+    keys_path_okb a = true -> keys_path_okb b = true ->
+    JsonDocs.is_json a = true -> JsonDocs.is_json b = true -> Value.wf a = true -> Value.wf b = true ->
+    DiffModel.thr_num c <= DiffModel.thr_den c ->
+    DiffModel.zip c = true \/ DiffPaths.ops_sorted2 ops ->
+    Codec.wfp (DeltaCodec.pv_of_delta (JsonDocs.mk_delta_json hatom udiff ops c conv a b)) = true.
+Proof. exact json_payload_wfp. Qed.
+Print Assumptions C20_json_payload_well_formed.
